@@ -1,4 +1,5 @@
 import functools
+import io
 import typing as t
 import warnings
 from enum import Enum
@@ -55,8 +56,18 @@ class FileSystemArtifactStore(SerializedArtifactStore):
         if len(self._get_glob(node_id)):
             raise ArtifactFileAlreadyExists(f'Artifact file for {node_id} already exists')
 
-        with Path(self._ensure_dir() / f'{node_id}.{fmt.value}').open('wb') as file:  # noqa: ASYNC101
-            serializer_factory.from_data_format(fmt).dump(data, file)
+        serializer = serializer_factory.from_data_format(fmt)
+        is_binary = isinstance(serializer.get_default_io(), io.BytesIO)
+        path = Path(self._ensure_dir() / f'{node_id}.{fmt.value}')
+
+        try:
+            with path.open('wb' if is_binary else 'w', encoding=None if is_binary else 'utf-8') as file:  # noqa: ASYNC101
+                serializer.dump(data, file)
+
+        except BaseException:
+            # A failed save must not leave a partial file behind: the key would look saved
+            path.unlink(missing_ok=True)
+            raise
 
     @dont_use_for_prod
     async def load(self, node_id: NodeId) -> NodeResultT:
